@@ -25,7 +25,7 @@ class Prop(BaseProp):
     shard = 120
     rule = ("Enc: every (witness version, program length) in 0..17 x 0..42 with random programs, hrps bc / tb / odd ones (1 char, 83 chars, digits, "
             "with '1'), negative and > 31 versions, program bytes out of range; Dec: strings reachable from valid addresses by insertion, deletion, "
-            "case change (all upper, mixed), other hrp, > 90 characters, bad padding, wrong checksum constant for the version, non-ASCII characters "
+            "case change (all upper, mixed), other hrp (incl. longer ones that start with the expected hrp + '1'), > 90 characters, bad padding, wrong checksum constant for the version, non-ASCII characters "
             "whose case mapping is an ASCII charset letter (KELVIN SIGN, LONG S) or a look-alike; Mut: 1..4 random "
             "substitutions in the data part of valid addresses (all lengths the library emits), incl. the weight-4 patterns that switch between "
             "version 0 and non-0. Non-trivial = distinct (case, output).")
@@ -83,6 +83,15 @@ class Prop(BaseProp):
                     for p in pos:
                         t[p] = rng.choice([c for c in CHARSET if c != a[p]])
                     cases.append({"kind": "Mut", "hrp": hrp, "orig": a, "variant": "".join(t)})
+        # addresses that are valid for a LONGER human-readable part beginning with the expected one plus '1' (or just a longer one)
+        for hrp in ("bc", "tb"):
+            for ext in ("1q", "1", "1p", "1bc", "c", "1qqqqqqq"):
+                for v, n in ((0, 20), (1, 32)):
+                    a = b32.encode(hrp + ext, v, rb(n))
+                    if a:
+                        cases.append({"kind": "Dec", "hrp": hrp, "addr": a})
+                        cases.append({"kind": "Dec", "hrp": hrp, "addr": a.upper()})
+                        cases.append({"kind": "Dec", "hrp": hrp + ext, "addr": a})
         # non-ASCII characters whose str.lower()/str.upper() is an ASCII letter of the charset (KELVIN SIGN -> k, LONG S -> S, ...)
         for hrp, a in valid[:6]:
             up = a.upper()
